@@ -276,6 +276,76 @@ def _worker(part, tier, is_canary):
                     if cc.total_nbranches < c.total_nbranches:
                         bad.append(f"{fn}: max_branch_len={lim} lost branches")
             out["results"].append(_res("read_swc[repository files]:total length and connectivity independent of ncomp; max_branch_len splitting preserves the total traced length", not bad, " | ".join(bad[:2]), backend="bounded-evaluation"))
+        elif part == "split":
+            # contract of max_branch_len splitting (documented rule: a section longer than max_branch_len is split into k
+            # equal parts - equal in the number of traced points - with the LEAST k for which every part is at most
+            # max_branch_len; the code gives up after 11 parts).  Sections with UNEVENLY spaced traced points included.
+            import jaxley as jx
+            patterns = [[30, 30, 30, 5, 5, 5, 5], [5, 5, 5, 5, 30, 30, 30], [10] * 8, [40, 1, 1, 1, 40, 1, 1, 1, 40, 1, 1, 1], [2, 2, 2, 50, 2, 2, 2, 2], [7] * 12,
+                        [20, 5, 20, 5, 20, 5, 20, 5], [1, 1, 1, 1, 1, 1, 90, 1, 1, 1, 1, 1]]
+            if tier != "quick":
+                rng = np.random.default_rng(7)
+                patterns += [[float(x) for x in rng.choice([2.0, 5.0, 12.0, 30.0], size=int(rng.integers(6, 16)))] for _ in range(30)]
+            for ns in (1, 3):
+                for pi, steps in enumerate(patterns):
+                    for second in (None, patterns[(pi + 3) % len(patterns)]):
+                        rows = []
+                        for k in range(ns):
+                            rows.append((len(rows) + 1, 1, 0.0, 1.5 * k, 0.0, 5.0, len(rows) if rows else -1))
+                        anchor = len(rows)
+                        for sgn, st in ((1.0, steps), (-1.0, second)):
+                            if st is None:
+                                continue
+                            x, parent = 0.0, anchor
+                            for d in st:
+                                x += sgn * d
+                                rows.append((len(rows) + 1, 3, x, 1.5 * (ns - 1), 0.0, 1.0, parent))
+                                parent = len(rows)
+                        secs, single = oracle(rows)
+                        pts = {r[0]: r for r in rows}
+                        path = os.path.join(tmp, f"split_{os.getpid()}.swc")
+                        for Lmax in (25.0, 60.0, 100.0):
+                            want = []
+                            for sct in secs:
+                                P = sct["points"]
+                                seg = [float(np.linalg.norm(np.array(pts[P[k + 1]][2:5]) - np.array(pts[P[k]][2:5]))) for k in range(len(P) - 1)] if len(P) > 1 else []
+                                if single and sct["parent"] is not None and pts[P[0]][1] == 1 and sct["type"] != 1 and seg:
+                                    seg[0] = 0.0
+                                if len(P) == 1 or sct["length"] <= Lmax:
+                                    want.append(sct["length"])
+                                    continue
+                                k = 1
+                                pieces = [sct["length"]]
+                                # stops when the parts are short enough, after 11 parts, or when a further split would leave a part
+                                # with fewer than two traced points (neighbouring points farther apart than max_branch_len:
+                                # the code warns and keeps what it has - finding F23 was a crash here)
+                                while max(pieces) > Lmax and k <= 10 and len(P) // (k + 1) >= 2:
+                                    k += 1
+                                    m = len(P) // k           # the kernel's convention (checked under 'kernels'): floor(n/k) points each, the last part takes the rest
+                                    bounds = [0] + [i * m - 1 for i in range(1, k)] + [len(P) - 1]
+                                    pieces = [sum(seg[bounds[i]:bounds[i + 1]]) for i in range(k)]
+                                want += [x if x > 0 else 1.0 for x in pieces]        # zero-length parts are set to 1 um (documented convention)
+                            write_swc(rows, path)
+                            lab = f"soma points={ns}, steps={steps}" + (f" + {second}" if second else "") + f", max_branch_len={Lmax}"
+                            out["evals"] += 1
+                            out["cases"] += 1
+                            try:
+                                with warnings.catch_warnings():
+                                    warnings.simplefilter("ignore")
+                                    cell = jx.read_swc(path, ncomp=1, max_branch_len=Lmax)
+                            except Exception as e:
+                                bad.append(f"{lab}: read_swc raised {type(e).__name__}: {str(e)[:80]}")
+                                continue
+                            finally:
+                                os.unlink(path)
+                            got = sorted(float(x) for x in cell.nodes.groupby("global_branch_index")["length"].sum())
+                            if len(got) != len(want) or not np.allclose(got, sorted(want), rtol=1e-6, atol=1e-6):
+                                bad.append(f"{lab}: branch lengths {got}, documented rule gives {sorted(want)}")
+                            elif max(want) <= Lmax and any(g > Lmax * (1 + 1e-9) for g in got):
+                                bad.append(f"{lab}: a branch exceeds max_branch_len: {got}")
+                        if is_canary and bad:
+                            break
+            out["results"].append(_res("read_swc[max_branch_len]:every section is split into the least number of equal-point parts that are all at most max_branch_len (unevenly traced sections included); lengths of the parts = traced path lengths", not bad, " | ".join(bad[:2]), backend="bounded-evaluation"))
         elif part == "kernels":
             from jaxley.utils.cell_utils import _split_branch_equally, _radius_generating_fn, build_radiuses_from_xyzr
             # _split_branch_equally: pieces cover the branch, consecutive pieces share exactly one point (bounded-exhaustive)
@@ -326,11 +396,12 @@ def _worker(part, tier, is_canary):
     return out
 
 
-PARTS = ["single", "multi", "files", "kernels"]
+PARTS = ["single", "multi", "files", "kernels", "split"]
 CANARIES = [
     ("multi", ("jaxley.utils.cell_utils:_compute_pathlengths", "src", "point_diffs[:, 1] ** 2 + point_diffs[:, 2] ** 2 + point_diffs[:, 3] ** 2", "point_diffs[:, 1] ** 2 + point_diffs[:, 2] ** 2")),
     ("single", ("jaxley.io.swc:swc_to_jaxley", "src", "pathlengths[i] = 1.0", "pathlengths[i] = 1e-8")),
     ("kernels", ("jaxley.utils.cell_utils:build_radiuses_from_xyzr", "src", "np.linspace(non_split / 2, 1 - non_split / 2, ncomp)", "np.linspace(0, 1 - non_split, ncomp)")),
+    ("split", ("jaxley.utils.cell_utils:_split_long_branches", "src", "length = max(lengths_of_subbranches)", "length = min(lengths_of_subbranches)")),
 ]
 
 
